@@ -316,14 +316,14 @@ func valueOf(cs *core.Case, o gen.Opts) rtcp.Packet {
 
 func runC02(c *core.Ctx) {
 	o := gen.Opts{AllowKF: true}
-	c.Section("values", c.N(1200000, 16000000), func(cs *core.Case) {
+	c.Section("values", c.N(1200000, 48000000), func(cs *core.Case) {
 		c02Value(cs, valueOf(cs, o))
 	})
 	// values whose encoding has 64 KiB or more (where 16-bit byte arithmetic wraps)
 	c.Section("big-values", c.N(400, 8000), func(cs *core.Case) {
 		c02Value(cs, gen.BigPacket(cs.R))
 	})
-	c.Section("lists", c.N(100000, 1500000), func(cs *core.Case) {
+	c.Section("lists", c.N(100000, 4000000), func(cs *core.Case) {
 		c02List(cs, gen.List(cs.R, 12, o))
 	})
 	// fixed regression witnesses of repaired defects
